@@ -153,7 +153,7 @@ static const char *get_token_name(ts_parser_state_t *tpsp)
     case T_KW_REFERENCE:
 	return "[Reference]";
     case T_KW_TWO_PORT_ORDER:
-	return "[Two-Port Order]";
+	return "[Two-Port Data Order]";
     case T_KW_VERSION:
 	return "[Version]";
     case T_KW_END:
@@ -421,6 +421,13 @@ static int next_token(ts_parser_state_t *tpsp, uint32_t flags)
 
 	    case 14:
 		if (strcmp(tpsp->tps_text, "TWO-PORT ORDER") == 0) {
+		    tpsp->tps_token = T_KW_TWO_PORT_ORDER;
+		    return 0;
+		}
+		break;
+
+	    case 19:
+		if (strcmp(tpsp->tps_text, "TWO-PORT DATA ORDER") == 0) {
 		    tpsp->tps_token = T_KW_TWO_PORT_ORDER;
 		    return 0;
 		}
@@ -1250,7 +1257,8 @@ int _vnadata_load_touchstone(vnadata_internal_t *vdip, FILE *fp,
 		two_port_order = T21_12;
 	    } else {
 		_vnadata_error(vdip, VNAERR_SYNTAX, "%s (line %d) error: "
-			"expected 12_21 or 21_12 after [Two-Port Order]",
+			"expected 12_21 or 21_12 after "
+			    "[Two-Port Data Order]",
 		    tps.tps_filename, tps.tps_line);
 		goto out;
 	    }
@@ -1446,13 +1454,15 @@ int _vnadata_load_touchstone(vnadata_internal_t *vdip, FILE *fp,
     }
     if (tps.tps_ports == 2 && two_port_order == -1) {
 	_vnadata_error(vdip, VNAERR_SYNTAX, "%s (line %d) error: "
-		"[Two-Port Order] must appear before [Network Data]",
+		"[Two-Port Data Order] must appear before "
+		    "[Network Data]",
 		tps.tps_filename, tps.tps_line);
 	goto out;
 
     } else if (tps.tps_ports != 2 && two_port_order != -1) {
 	_vnadata_error(vdip, VNAERR_SYNTAX, "%s (line %d) error: "
-		"[Two-Port Order] may not be used with [Number of Ports] %d",
+		"[Two-Port Data Order] may not be used with "
+		    "[Number of Ports] %d",
 		tps.tps_filename, two_port_order_line, tps.tps_ports);
 	goto out;
     }
